@@ -326,6 +326,45 @@ pub fn run(ctx: &'static Ctx) {
             l.fail(ctx, idx, v, || json!({"kind": "spelling", "enum": name, "spelling": s}));
         }
     });
+    if ctx.thorough() {
+        // every pair of single-character substitutions of every spelling (printable ASCII)
+        let mut spaces: Vec<(usize, String, u64)> = Vec::new();
+        for (i, (_, table)) in STRING_ENUMS.iter().enumerate() {
+            for w in table.iter() {
+                let n = w.len() as u64;
+                spaces.push((i, w.to_string(), n * (n - 1) / 2 * 95 * 95));
+            }
+        }
+        for (e, w, total) in spaces {
+            let (name, table) = STRING_ENUMS[e];
+            let wb = w.as_bytes().to_vec();
+            let n = wb.len() as u64;
+            sweep(ctx, &format!("two substitutions in {:?} ({})", w, name), total, "every pair of positions x 95 x 95 printable ASCII replacements", move |idx, l| {
+                let pair = idx / (95 * 95);
+                let (a, b) = (0x20 + ((idx / 95) % 95) as u8, 0x20 + (idx % 95) as u8);
+                let mut i = 0u64;
+                let mut rem = pair;
+                while rem >= n - 1 - i {
+                    rem -= n - 1 - i;
+                    i += 1;
+                }
+                let j = i + 1 + rem;
+                let mut s = wb.clone();
+                s[i as usize] = a;
+                s[j as usize] = b;
+                let s = String::from_utf8(s).unwrap();
+                let listed = table.contains(&s.as_str());
+                if !listed {
+                    l.nontrivial += 1;
+                }
+                l.bump(if listed { "listed spelling" } else { "unlisted spelling" });
+                let v = check_string(name, table, &s);
+                if !v.ok {
+                    l.fail(ctx, idx, v, || json!({"kind": "spelling", "enum": name, "spelling": s}));
+                }
+            });
+        }
+    }
     // a byte string carrying the octets of a spelling is not the identifier (wrong CBOR type)
     let mut bcases: Vec<(usize, String)> = Vec::new();
     for (i, (_, table)) in STRING_ENUMS.iter().enumerate() {
